@@ -120,9 +120,17 @@ print(json.dumps({'reproduced': bool(bad), 'bad': bad}))
 
 
 # ------------------------------------------------------------------------------------------------ (B) hybrid transfers
+_HIER = None          # canaries: a module object built from the transformed text of pyiga/hierarchical.py
+
+
 def build(spec, upto=None):
     from pyiga import bspline, hierarchical
-    kvs = tuple(bspline.make_knots(spec['p'], 0.0, 1.0 + 0.5 * d, spec['n'][d]) for d in range(len(spec['n'])))
+    if _HIER is not None: hierarchical = _HIER
+    if spec.get('breaks'):
+        # explicit (graded) dyadic breakpoints per direction
+        kvs = tuple(bspline.KnotVector(np.array([b[0]] * spec['p'] + list(b) + [b[-1]] * spec['p'], dtype=float), spec['p']) for b in spec['breaks'])
+    else:
+        kvs = tuple(bspline.make_knots(spec['p'], 0.0, 1.0 + 0.5 * d, spec['n'][d]) for d in range(len(spec['n'])))
     disp = np.inf if spec['disparity'] in (None, 'inf') else spec['disparity']
     hs = hierarchical.HSpace(kvs, truncate=spec['truncate'], disparity=disp, bdspecs=[])
     for step in spec['history'][:upto]:
@@ -130,15 +138,162 @@ def build(spec, upto=None):
     return hs
 
 
+def boehm_matrix(kc, kf, p):
+    """exact (Fraction) knot-insertion matrix from the open knot vector kc to its refinement kf, one knot at a time (Boehm).
+    Own code, independent of pyiga; validated against the Cox-de Boor oracle in oracle_selftest()."""
+    from collections import Counter
+    kc = [F(t) for t in kc]; kf = [F(t) for t in kf]
+    if Counter(kc) - Counter(kf): raise ValueError('knot vectors are not nested')
+    need = sorted((Counter(kf) - Counter(kc)).elements())
+    cur = list(kc); n0 = len(cur) - p - 1
+    M = [[F(int(i == j)) for j in range(n0)] for i in range(n0)]
+    for u in need:
+        k = max(i for i in range(len(cur) - 1) if cur[i] <= u < cur[i + 1])
+        n = len(cur) - p - 1
+        new = [[F(0)] * n0 for _ in range(n + 1)]
+        for i in range(n + 1):
+            if i <= k - p: a = F(1)
+            elif i >= k + 1: a = F(0)
+            else: a = (u - cur[i]) / (cur[i + p] - cur[i])
+            for j in range(n0):
+                v = F(0)
+                if i < n and a: v += a * M[i][j]
+                if i >= 1 and a != 1: v += (1 - a) * M[i - 1][j]
+                new[i][j] = v
+        M = new; cur.insert(k + 1, u)
+    out = np.empty((len(M), n0), dtype=object)
+    for i, row in enumerate(M):
+        for j, v in enumerate(row): out[i, j] = v if v else 0
+    return out
+
+
+def _cdb(kv, p, i, x):
+    """Cox-de Boor value of B-spline i of degree p at x (Fractions; right-continuous, last knot closed)"""
+    if p == 0:
+        if kv[i] <= x < kv[i + 1]: return F(1)
+        if x == kv[-1] and kv[i] < kv[i + 1] == kv[-1]: return F(1)
+        return F(0)
+    r = F(0)
+    if kv[i + p] > kv[i]: r += (x - kv[i]) / (kv[i + p] - kv[i]) * _cdb(kv, p - 1, i, x)
+    if kv[i + p + 1] > kv[i + 1]: r += (kv[i + p + 1] - x) / (kv[i + p + 1] - kv[i + 1]) * _cdb(kv, p - 1, i + 1, x)
+    return r
+
+
+def oracle_selftest(kc, kf, p, M):
+    """N^c_j(x) = sum_i M[i,j] N^f_i(x) at rational points of every fine span: validates boehm_matrix against the definition"""
+    kc = [F(t) for t in kc]; kf = [F(t) for t in kf]
+    br = sorted(set(kf)); pts = [a + (b - a) * F(k, 3) for a, b in zip(br, br[1:]) for k in (0, 1, 2)] + [br[-1]]
+    nc = len(kc) - p - 1; nf = len(kf) - p - 1
+    for x in pts:
+        fv = [_cdb(kf, p, i, x) for i in range(nf)]
+        for j in range(nc):
+            if sum((M[i, j] * fv[i] for i in range(nf) if M[i, j]), F(0)) != _cdb(kc, p, j, x):
+                raise AssertionError('knot-insertion oracle disagrees with Cox-de Boor (own code inconsistent)')
+
+
+def okron(mats):
+    """Kronecker product of object matrices, first factor slowest (the raveling order of tensor-product coefficients)"""
+    from checks.C03 import is_zero
+    M = mats[0]
+    for B in mats[1:]:
+        out = np.empty((M.shape[0] * B.shape[0], M.shape[1] * B.shape[1]), dtype=object); out[...] = 0
+        for i in range(M.shape[0]):
+            for j in range(M.shape[1]):
+                if is_zero(M[i, j]): continue
+                for k in range(B.shape[0]):
+                    for l in range(B.shape[1]):
+                        if not is_zero(B[k, l]): out[i * B.shape[0] + k, j * B.shape[1] + l] = M[i, j] * B[k, l]
+        M = out
+    return M
+
+
+def oracle_level_prolong(hs, k):
+    """tensor-product prolongation level k -> k+1 from the knot vectors alone (exact knot insertion per direction)"""
+    _TPO = hs.__dict__.setdefault('_verif_tpo', {})
+    key = k
+    if key not in _TPO:
+        mats = []
+        for kc, kf in zip(hs.knotvectors(k), hs.knotvectors(k + 1)):
+            M = boehm_matrix(list(kc.kv), list(kf.kv), kc.p)
+            oracle_selftest(list(kc.kv), list(kf.kv), kc.p, M)
+            mats.append(M)
+        _TPO[key] = (mats, okron(mats))
+    return _TPO[key]
+
+
 def tp_prolong(hs_fine, lo, hi):
-    """tensor-product prolongation between levels lo -> hi of the fine space's mesh hierarchy (real code: HMesh.P)"""
-    from pyiga import utils
-    from checks.C03 import clean_array, spdot
+    """tensor-product prolongation between levels lo -> hi of the space's knot-vector hierarchy: exact knot insertion (own oracle), NOT the
+    library's HMesh.P (that one is an object of the check: see the obligation 'HMesh.P')"""
+    from checks.C03 import spdot
     M = None
     for k in range(lo, hi):
-        Pk = clean_array(utils.multi_kron_sparse(hs_fine.hmesh.P[k]).toarray())
+        Pk = oracle_level_prolong(hs_fine, k)[1]
         M = Pk if M is None else spdot(Pk, M)
     return M
+
+
+def span_equal(X, Y, tol=F(1, 10 ** 9)):
+    """column spans of X and Y (same number of columns; Y exact and of full column rank by construction, X from real float matrices) are
+    equal up to rounding: every column x of X has a combination d with |Y d - x|_inf <= tol (existential LRA query per column) and
+    no c with |c|_inf = 1 has |X c|_inf <= 1e3 tol (the columns are independent).
+    -> ('unsat' = spans equal | 'sat' = not equal | 'unknown', solver seconds, witness)"""
+    from checks.C03 import is_zero
+    t0 = time.time()
+    if X.shape != Y.shape: return 'sat', 0.0, ['shape %s vs %s' % (X.shape, Y.shape)]
+    m, n = X.shape
+    toz = lambda v: z3.RealVal(str(F(v)))
+    tz = z3.RealVal(str(tol))
+    ds = [z3.Real('d%d' % j) for j in range(n)]
+    rowsY = [z3.Sum([toz(Y[i, j]) * ds[j] for j in range(n) if not is_zero(Y[i, j])] + [z3.RealVal(0)]) for i in range(m)]
+    for col in range(n):
+        s_ = z3.Solver(); s_.set('timeout', 60000)
+        for i in range(m):
+            x = toz(X[i, col]) if not is_zero(X[i, col]) else z3.RealVal(0)
+            s_.add(rowsY[i] - x <= tz, x - rowsY[i] <= tz)
+        r = str(s_.check())
+        if r == 'unsat': return 'sat', time.time() - t0, ['column %d of the composed prolongator is not in the level space' % col]
+        if r != 'sat': return 'unknown', time.time() - t0, []
+    s_ = z3.Solver(); s_.set('timeout', 60000)
+    for i in range(m):
+        e = z3.Sum([toz(X[i, j]) * ds[j] for j in range(n) if not is_zero(X[i, j])] + [z3.RealVal(0)])
+        s_.add(e <= 1000 * tz, -e <= 1000 * tz)
+    for d in ds: s_.add(d <= 1, d >= -1)
+    s_.add(z3.Or(*[z3.Or(d == 1, d == -1) for d in ds]))
+    r = str(s_.check())
+    if r == 'sat': return 'sat', time.time() - t0, ['the composed columns are linearly dependent']
+    if r != 'unsat': return 'unknown', time.time() - t0, []
+    return 'unsat', time.time() - t0, []
+
+
+def level_index_sets(hs):
+    """per level: raveled indices (sorted) of the active and of the deactivated functions, from the raw sets of multi-indices"""
+    A, D = [], []
+    for k in range(hs.numlevels):
+        shape = tuple(kv.numdofs for kv in hs.knotvectors(k))
+        A.append(sorted(int(np.ravel_multi_index(tuple(f), shape)) for f in hs.actfun[k]))
+        D.append(sorted(int(np.ravel_multi_index(tuple(f), shape)) for f in hs.deactfun[k]))
+    return A, D
+
+
+def oracle_represent(hs, lv, truncate):
+    """columns: the (T)HB basis functions of the virtual space of level lv (active functions of levels <= lv, on level lv also the
+    deactivated ones) in tensor-product coefficients of level lv.  HB: plain prolongation of the unit vector.  THB (textbook definition,
+    Giannelli/Juettler/Speleers): after every prolongation step to level m the coefficients of all level-m functions whose support lies
+    in the level-m refinement region (active or deactivated ones) are set to zero."""
+    from checks.C03 import spdot
+    A, D = level_index_sets(hs)
+    cols = []
+    for k in range(lv + 1):
+        idx = A[k] + (D[k] if k == lv else [])
+        nk = int(np.prod([kv.numdofs for kv in hs.knotvectors(k)]))
+        E = np.empty((nk, len(idx)), dtype=object); E[...] = 0
+        for c, i in enumerate(idx): E[i, c] = 1
+        for m in range(k + 1, lv + 1):
+            E = spdot(oracle_level_prolong(hs, m - 1)[1], E)
+            if truncate:
+                for i in A[m] + D[m]: E[i, :] = 0
+        cols.append(E)
+    return np.concatenate(cols, axis=1) if cols else None
 
 
 def transfer_space(spec):
@@ -175,6 +330,55 @@ def transfer_space(spec):
                 rhs = spdot(Ic, cvec) if M is None else spdot(M, spdot(Ic, cvec))
                 put(nm, lhs, rhs, cs)
             except Exception as e:
+                res[nm] = 'sat'; bad[nm] = ['exception %s: %s' % (type(e).__name__, str(e)[:100])]
+        # --- the mesh hierarchy's prolongators against exact knot insertion
+        for k in range(Lf - 1):
+            mats, _ = oracle_level_prolong(fine, k)
+            for d, Mo in enumerate(mats):
+                nm = 'HMesh.P[%d][%d] = exact knot insertion between the level knot vectors' % (k, d)
+                try:
+                    Pr = clean_array(fine.hmesh.P[k][d].toarray())
+                    cs = [z3.Real('c%d' % i) for i in range(Mo.shape[1])]
+                    cvec = np.array([Sym(t) for t in cs] + [None], dtype=object)[:-1]
+                    put(nm, spdot(Pr, cvec) if Pr.shape == Mo.shape else np.zeros(0), spdot(Mo, cvec), cs)
+                except Exception as e:
+                    res[nm] = 'sat'; bad[nm] = ['exception %s: %s' % (type(e).__name__, str(e)[:100])]
+        # --- represent_fine on every virtual level, HB and THB: columns = the basis functions of that level's space
+        Aix, Dix = level_index_sets(fine)
+        for lv in range(Lf):
+            ncol = sum(len(a) for a in Aix[:lv + 1]) + len(Dix[lv])
+            cs = [z3.Real('c%d' % i) for i in range(ncol)]
+            cvec = np.array([Sym(t) for t in cs] + [None], dtype=object)[:-1]
+            for tr in (False, True):
+                nm = 'represent_fine(lv=%d, truncate=%s): column j = basis function j of the virtual level in level-%d coefficients' % (lv, tr, lv)
+                try:
+                    R = clean_array(fine.represent_fine(lv=lv, truncate=tr).toarray())
+                    O = oracle_represent(fine, lv, tr)
+                    put(nm, spdot(R, cvec) if R.shape == O.shape else np.zeros(0), spdot(O, cvec), cs)
+                except Exception as e:
+                    res[nm] = 'sat'; bad[nm] = ['exception %s: %s' % (type(e).__name__, str(e)[:100])]
+        # --- virtual hierarchy prolongators (as the property states it): (a) the composition of all of them maps level-0 tensor-product
+        #     coefficients to (T)HB coefficients of the identical function; (b) composed from level lv on, the columns span exactly the
+        #     spline space of virtual level lv (each column lies in it: existential query per column; and the columns are independent)
+        for tr in (False, True):
+            try:
+                VP = [clean_array(P.toarray()) for P in fine.virtual_hierarchy_prolongators(truncate=tr)]
+                Ofull = oracle_represent(fine, Lf - 1, tr)
+                comp = None
+                for lv in reversed(range(Lf - 1)):
+                    comp = VP[lv] if comp is None else spdot(comp, VP[lv])
+                    X = spdot(Ofull, comp)                                  # functions (finest tensor-product coefficients) of the composed columns
+                    Y = spdot(tp_prolong(fine, lv, Lf - 1), oracle_represent(fine, lv, False))    # the virtual level-lv space, prolonged
+                    if lv == 0:
+                        nm = 'virtual_hierarchy_prolongators(truncate=%s): composition of all maps level-0 coefficients to the identical function' % tr
+                        cs = [z3.Real('c%d' % i) for i in range(X.shape[1])]
+                        cvec = np.array([Sym(t) for t in cs] + [None], dtype=object)[:-1]
+                        put(nm, spdot(X, cvec), spdot(tp_prolong(fine, 0, Lf - 1), spdot(oracle_represent(fine, 0, tr), cvec)), cs)
+                    nm = 'virtual_hierarchy_prolongators(truncate=%s): composed from level %d, the columns span exactly that level\'s space' % (tr, lv)
+                    r, dt, b = span_equal(X, Y); res[nm] = r; solver_s += dt
+                    if b: bad[nm] = b
+            except Exception as e:
+                nm = 'virtual_hierarchy_prolongators(truncate=%s)' % tr
                 res[nm] = 'sat'; bad[nm] = ['exception %s: %s' % (type(e).__name__, str(e)[:100])]
         # --- THB <-> HB
         cs = [z3.Real('c%d' % i) for i in range(nf)]
@@ -220,6 +424,37 @@ def transfer_space(spec):
         return {'spec': spec, 'error': '%s: %s' % (type(e).__name__, e), 'traceback': traceback.format_exc()[-1500:]}
 
 
+def canary_space(args):
+    """worker: the transfer obligations on one space, with HSpace/HMesh taken from a transformed copy of pyiga/hierarchical.py"""
+    global _HIER
+    spec, pat, rep = args
+    from checks import C03
+    C03.real_pyiga()
+    _HIER = srcload.load_module('pyiga/hierarchical.py', 'pyiga._verif_hier_canary', transform=lambda t: t.replace(pat, rep, 1))
+    try:
+        r = transfer_space(spec)
+    finally:
+        _HIER = None
+    if 'error' in r: return None
+    return sorted(k for k, v in r['results'].items() if v == 'sat' and not k.startswith('virtual_hierarchy_prolongators(truncate=True)'))
+
+
+HCANARIES = [
+    ('represent_fine: an intermediate virtual level truncates against the active functions only',
+     'Pj[act_indices[k+1], :] = 0', 'Pj[self.active_indices()[k+1], :] = 0',
+     {'p': 2, 'n': [6], 'history': [{0: [[1], [2], [3], [4]]}, {1: [[3], [4], [5], [6], [7], [8]]}], 'truncate': True, 'disparity': 'inf'}),
+    ('HMesh.add_level: the prolongator of direction 0 is used in every direction',
+     'in zip(self.meshes[-2].kvs, self.meshes[-1].kvs)))', 'in zip(len(self.meshes[-2].kvs) * self.meshes[-2].kvs[:1], len(self.meshes[-1].kvs) * self.meshes[-1].kvs[:1])))',
+     {'p': 2, 'n': [3, 3], 'breaks': [[0, 0.25, 0.5, 1], [0, 0.5, 0.875, 1]], 'history': [{0: [[0, 0], [1, 1]]}], 'truncate': False, 'disparity': 'inf'}),
+    ('prolongate_to: propagation stops at a level without ACTIVE functions (instead of: without deactivated ones)',
+     'if len(fd_l) == 0: # no more functions to prolongate on this level', 'if len(fa_l) == 0:',
+     {'p': 1, 'n': [4], 'history': [{0: [[1]]}, {1: [[2], [3]]}, {2: [[4], [5], [6], [7]]}], 'truncate': False, 'disparity': 'inf'}),
+    ('virtual_hierarchy_prolongators (HB): block of the deactivated functions taken from the wrong columns',
+     'restrict=True)[:, ID[lv]]', 'restrict=True)[:, ID[lv][::-1]]',
+     {'p': 2, 'n': [4], 'history': [{0: [[0], [1]]}, {1: [[0], [1]]}], 'truncate': False, 'disparity': 'inf'}),
+]
+
+
 def transfer_specs(thorough):
     S = []
     def add(p, n, hist, trunc, disp='inf'): S.append({'p': p, 'n': list(n), 'history': hist, 'truncate': trunc, 'disparity': disp})
@@ -233,6 +468,12 @@ def transfer_specs(thorough):
         add(1, (2, 3), [{0: [[1, 2]]}, {1: [[3, 5]]}], trunc)
         add(2, (3, 2), [{0: [[0, 0], [1, 0]]}], trunc)
         add(1, (2, 2), [{0: [[0, 0]]}, {1: [[0, 0], [1, 1]]}], trunc)
+        # same degree and size in two directions, different (graded) knots
+        S.append({'p': 2, 'n': [3, 3], 'breaks': [[0, 0.25, 0.5, 1], [0, 0.5, 0.875, 1]], 'history': [{0: [[0, 0], [1, 1]]}], 'truncate': trunc, 'disparity': 'inf'})
+        S.append({'p': 2, 'n': [2, 2], 'breaks': [[0, 0.5, 1], [0, 0.125, 1]], 'history': [{0: [[0, 0]]}, {1: [[0, 1]]}], 'truncate': trunc, 'disparity': 'inf'})   # (degree 1: midpoint insertion has weights 1/2 whatever the grading)
+        # sharply nested regions: a child of an active function is deactivated on the next level
+        add(2, (6,), [{0: [[1], [2], [3], [4]]}, {1: [[3], [4], [5], [6], [7], [8]]}], trunc)
+        add(3, (8,), [{0: [[1], [2], [3], [4], [5], [6]]}, {1: [[3], [4], [5], [6], [7], [8], [9], [10], [11], [12]]}], trunc)
     add(1, (4,), [{0: [[0]]}, {1: [[0]]}, {2: [[0]]}], False, 1)
     add(2, (4,), [{0: [[0]]}, {1: [[0]]}], True, 1)
     add(1, (3, 2), [{0: [[0, 0]]}, {1: [[0, 0]]}], False, 2)
@@ -253,7 +494,10 @@ w = json.load(sys.stdin)
 from pyiga import bspline, hierarchical, utils
 spec = w['spec']
 def build(upto=None):
-    kvs = tuple(bspline.make_knots(spec['p'], 0.0, 1.0 + 0.5 * d, spec['n'][d]) for d in range(len(spec['n'])))
+    if spec.get('breaks'):
+        kvs = tuple(bspline.KnotVector(np.array([b[0]] * spec['p'] + list(b) + [b[-1]] * spec['p'], dtype=float), spec['p']) for b in spec['breaks'])
+    else:
+        kvs = tuple(bspline.make_knots(spec['p'], 0.0, 1.0 + 0.5 * d, spec['n'][d]) for d in range(len(spec['n'])))
     disp = np.inf if spec['disparity'] in (None, 'inf') else spec['disparity']
     hs = hierarchical.HSpace(kvs, truncate=spec['truncate'], disparity=disp, bdspecs=[])
     for step in spec['history'][:upto]:
@@ -274,6 +518,43 @@ try:
     c = rng.rand(fine.numdofs)
     if not np.allclose(hierarchical.HSplineFunc(fine, c, truncate=True).grid_eval(pts), hierarchical.HSplineFunc(fine, fine.thb_to_hb() @ c, truncate=False).grid_eval(pts), atol=1e-10): bad.append('thb_to_hb')
     if not np.allclose(fine.hb_to_thb() @ (fine.thb_to_hb() @ c), c, atol=1e-10): bad.append('hb_to_thb o thb_to_hb != id')
+    # mesh-hierarchy prolongators, direction by direction, by evaluation
+    L = fine.numlevels
+    for k in range(L - 1):
+        for d, (kc, kf) in enumerate(zip(fine.knotvectors(k), fine.knotvectors(k + 1))):
+            cc = rng.rand(kc.numdofs); xs = np.linspace(kc.support()[0], kc.support()[1], 23)
+            Pk = fine.hmesh.P[k][d]
+            if Pk.shape != (kf.numdofs, kc.numdofs) or not np.allclose(bspline.BSplineFunc(kc, cc)(xs), bspline.BSplineFunc(kf, Pk @ cc)(xs), atol=1e-10):
+                bad.append('HMesh.P[%d][%d] changes the function' % (k, d))
+    # represent_fine on every virtual level
+    IA = [np.sort(np.ravel_multi_index(np.array(sorted(a)).T.reshape(len(spec['n']), -1), tuple(kv.numdofs for kv in fine.knotvectors(k)))) if a else np.zeros(0, dtype=int) for k, a in enumerate(fine.actfun)]
+    ID = [np.sort(np.ravel_multi_index(np.array(sorted(a)).T.reshape(len(spec['n']), -1), tuple(kv.numdofs for kv in fine.knotvectors(k)))) if a else np.zeros(0, dtype=int) for k, a in enumerate(fine.deactfun)]
+    for lv in range(L):
+        Rh = fine.represent_fine(lv=lv, truncate=False).toarray(); Rt = fine.represent_fine(lv=lv, truncate=True).toarray()
+        kl = fine.knotvectors(lv)
+        # HB: the function with level-lv coefficients Rh c is the sum of the level-wise tensor-product functions
+        idx = [IA[k] if k < lv else np.concatenate((IA[k], ID[k])) for k in range(lv + 1)]
+        c = rng.rand(Rh.shape[1]); off = 0; tot = 0
+        for k in range(lv + 1):
+            ck = np.zeros(int(np.prod([kv.numdofs for kv in fine.knotvectors(k)]))); ck[idx[k]] = c[off:off + len(idx[k])]; off += len(idx[k])
+            tot = tot + bspline.BSplineFunc(fine.knotvectors(k), ck.reshape([kv.numdofs for kv in fine.knotvectors(k)])).grid_eval(pts)
+        got = bspline.BSplineFunc(kl, (Rh @ c).reshape([kv.numdofs for kv in kl])).grid_eval(pts)
+        if not np.allclose(got, tot, atol=1e-10): bad.append('represent_fine(lv=%d, truncate=False): columns are not the HB basis functions' % lv)
+        # THB: partition of unity, non-negative, same span as HB, and truncated functions differ from the HB ones only by finer functions of the space
+        if not np.allclose(Rt.sum(axis=1), 1.0, atol=1e-10): bad.append('represent_fine(lv=%d, truncate=True): no partition of unity (max dev %.3g)' % (lv, abs(Rt.sum(axis=1) - 1).max()))
+        if Rt.min() < -1e-12: bad.append('represent_fine(lv=%d, truncate=True): negative coefficients' % lv)
+        if np.linalg.matrix_rank(np.hstack((Rh, Rt)), tol=1e-9) != Rh.shape[1] or np.linalg.matrix_rank(Rt, tol=1e-9) != Rh.shape[1]:
+            bad.append('represent_fine(lv=%d, truncate=True): columns do not span the level space' % lv)
+    # virtual hierarchy prolongators: composition of all, from level-0 tensor-product coefficients (active, then deactivated)
+    for tr in (False, True):
+        Ps = fine.virtual_hierarchy_prolongators(truncate=tr)
+        u_tp = rng.rand(int(np.prod([kv.numdofs for kv in fine.knotvectors(0)])))
+        u = np.concatenate((u_tp[IA[0]], u_tp[ID[0]]))
+        for P in Ps: u = P @ u
+        pd = [np.linspace(kv.support()[0], kv.support()[1], 131) for kv in fine.knotvectors(0)]
+        f0 = bspline.BSplineFunc(fine.knotvectors(0), u_tp.reshape([kv.numdofs for kv in fine.knotvectors(0)])).grid_eval(pd)
+        f1 = hierarchical.HSplineFunc(fine, u, truncate=tr).grid_eval(pd)
+        if not np.allclose(f0, f1, atol=1e-10): bad.append('virtual_hierarchy_prolongators(truncate=%s): composition changes the function (max dev %.3g)' % (tr, abs(f0 - f1).max()))
     dim = len(spec['n'])
     if dim >= 2:
         for ax in range(dim):
@@ -299,10 +580,13 @@ def main():
     run.stubs += ['scipy.sparse.lil_matrix -> symsparse', 'np allocation -> object arrays', '(B) real HSpace code of /repo; entries of the real transfer matrices replaced by the dyadic rational within 1e-12']
     run.assumptions += ['doubles as reals', 'knot insertion: a < u < b and the refined vector is admissible (interior multiplicity <= p)',
                         '(B) the quantifier over refinement histories is by enumeration (not a solver verdict); the solver quantifies over the coefficient vector only (linear identities), tolerance 1e-9 for |c_i| <= 1',
-                        'the tensor-product representation on the finest level (represent_fine) and the mesh prolongations HMesh.P are the reference for "the same function"']
-    run.out_of_scope += ['bspline.prolongation (collocation solve through sparse LU: numeric, FFI) -- used as given', 'virtual_hierarchy_prolongators', 'HSplineFunc evaluation routes', 'rounding']
+                        'reference for "the same function": tensor-product coefficients on a common level, with level-to-level prolongation by EXACT knot insertion (own Boehm code in Fractions, self-tested against Cox-de Boor on every use) -- not the library\'s HMesh.P',
+                        'reference for the (T)HB basis of a virtual level: textbook definition (prolongate the unit vector; THB: after each step zero the coefficients of all functions whose support lies in that level\'s refinement region)',
+                        'span equality is decided with tolerance 1e-9 (existential LRA query per column + independence query)']
+    run.out_of_scope += ['bspline.prolongation for arbitrary knot vectors (collocation solve through sparse LU: numeric, FFI): only its results inside HMesh.P are compared with exact knot insertion, on the listed level knot vectors',
+                         'HSplineFunc evaluation routes (used in the real replay only)', 'rounding below 1e-9']
     run.bounds = {'knot insertion': 'degree 1..3 (4 thorough), 0..2 symbolic interior knots (coincident knots allowed), u anywhere in (a,b) incl. on existing knots, all real x',
-                  'transfers': 'histories listed in evidence: 1D-2D (3D thorough), degree 1-3, HB and THB, disparity inf/1/2, different knot vectors per direction, empty intermediate levels'}
+                  'transfers': 'histories listed in evidence: 1D-2D (3D thorough), degree 1-3, HB and THB, disparity inf/1/2, different and graded knot vectors per direction (same degree and size), empty intermediate levels, sharply nested regions; per space: prolongate_to from every prefix, HMesh.P per level and direction, represent_fine on every virtual level for both bases, virtual_hierarchy_prolongators (composition, spans) for both bases, THB<->HB, boundary restriction'}
     if run.want('insertion'):
         cfgs = [(1, 0), (1, 1), (1, 2), (2, 1), (2, 2), (3, 1), (3, 2), (2, 3)] + ([(3, 3), (4, 1), (4, 2), (5, 1), (5, 2)] if thorough else [])
         for p, nint in cfgs:
@@ -318,18 +602,40 @@ def main():
     if run.want('transfers'):
         specs = transfer_specs(thorough)
         import multiprocessing as mp
+        from checks import C03
+        C03.real_pyiga()            # resolve (and if necessary build) the real tree ONCE, before forking the workers
         with mp.get_context('fork').Pool(10 if thorough else 6) as pool:
             results = pool.map(transfer_space, specs, chunksize=1)
+        # replays of all spaces with a failing obligation: the first one alone (it may trigger the scratch build), the others concurrently
+        need = [r for r in results if 'error' not in r and any(v == 'sat' for v in r['results'].values())]
+        replays = {}
+        if need:
+            from concurrent.futures import ThreadPoolExecutor
+            replays[id(need[0])] = realbuild.run_real(REPLAY_TR, {'spec': need[0]['spec']}, timeout=900)
+            with ThreadPoolExecutor(8) as ex:
+                for r_, rp_ in zip(need[1:], ex.map(lambda q: realbuild.run_real(REPLAY_TR, {'spec': q['spec']}, timeout=900), need[1:])):
+                    replays[id(r_)] = rp_
         for r in results:
             spec = r['spec']
             if 'error' in r:
                 run.inconclusive_msg('space %s: harness error %s\n%s' % (json.dumps(spec), r['error'], r.get('traceback', '')[-400:])); continue
             run.record_queries('hierarchical-transfers', r['results'], solver_s=r['solver_s'], bound={'space': spec, **r['info']}, sample={'space': spec, **r['info']})
             if any(v == 'sat' for v in r['results'].values()):
-                rp = realbuild.run_real(REPLAY_TR, {'spec': spec}, timeout=900)
-                failing = sorted(k.split('(')[0].split(':')[0] for k, v in r['results'].items() if v == 'sat')
-                key = 'transfer:%s:p%d:n%s:%s:disp=%s:%s' % ('THB' if spec['truncate'] else 'HB', spec['p'], 'x'.join(map(str, spec['n'])), json.dumps(spec['history'], sort_keys=True), spec['disparity'], ','.join(sorted(set(failing))))
-                run.report(key, 'space %s (%s): solver: %s %s; real evaluation: %s' % (json.dumps(spec), r['info'], {k: v for k, v in r['results'].items() if v == 'sat'}, r['bad'], rp['bad']), {'kind': 'transfer', 'spec': spec}, rp['reproduced'])
+                rp = replays[id(r)]
+                VH = 'virtual_hierarchy_prolongators(truncate=True)'
+                sat = {k: v for k, v in r['results'].items() if v == 'sat'}
+                # (i) the THB virtual-hierarchy prolongators on spaces with >= 3 levels: one call site, recorded as a known finding
+                vh = {k for k in sat if k.startswith(VH)} if r['info']['levels'] >= 3 else set()
+                if vh:
+                    rb = [b for b in rp['bad'] if b.startswith(VH)]
+                    run.report('virtual_hierarchy_prolongators:THB:levels>=3', 'space %s (%s): solver: %s; real evaluation: %s' % (json.dumps(spec), r['info'], sorted(vh), rb),
+                               {'kind': 'transfer', 'spec': spec}, bool(rb))
+                rest = {k: v for k, v in sat.items() if k not in vh}
+                if rest:
+                    rb = [b for b in rp['bad'] if not (vh and b.startswith(VH))]
+                    failing = sorted(k.split('(')[0].split(':')[0] for k in rest)
+                    key = 'transfer:%s:p%d:n%s:%s:disp=%s:%s' % ('THB' if spec['truncate'] else 'HB', spec['p'], 'x'.join(map(str, spec['n'])), json.dumps(spec['history'], sort_keys=True), spec['disparity'], ','.join(sorted(set(failing))))
+                    run.report(key, 'space %s (%s): solver: %s %s; real evaluation: %s' % (json.dumps(spec), r['info'], rest, {k: r['bad'].get(k) for k in rest}, rb), {'kind': 'transfer', 'spec': spec}, bool(rb))
     if not run.args.no_canaries and run.args.only is None:
         src = srcload.read('pyiga/bspline.py')
         for name, pat, rep in (('knot insertion: coefficient uses the wrong knot span', 'a = (u - knots[i]) / (knots[i + p] - knots[i])', 'a = (u - knots[i]) / (knots[i + p + 1] - knots[i])'),
@@ -339,6 +645,15 @@ def main():
             h, _, _ = insertion_harness(ns2, 2, 1)
             st = sx.explore(h, timeout_ms=60000)
             run.canary(name, bool(st.cex))
+        hsrc = srcload.read('pyiga/hierarchical.py')
+        import multiprocessing as mp
+        todo = [(name, pat, rep, spec) for name, pat, rep, spec in HCANARIES if pat in hsrc]
+        for name, pat, rep, spec in HCANARIES:
+            if pat not in hsrc: run.canary(name, False, skipped=True)
+        if todo:
+            with mp.get_context('fork').Pool(len(todo)) as pool:
+                for (name, _, _, _), got in zip(todo, pool.map(canary_space, [(spec, pat, rep) for _, pat, rep, spec in todo], chunksize=1)):
+                    run.canary(name, bool(got))
     run.finish()
 
 
